@@ -1075,7 +1075,10 @@ func c17Laws(r *Run, c *c17Case, obs []c17StepObs) {
 				if q.Target != nil {
 					t = [7]string{q.Target.Group, q.Target.Version, q.Target.Kind, q.Target.Name, q.Target.Namespace, q.Target.AnnotationSelector, q.Target.LabelSelector}
 				}
-				return q.Path == o.Path && q.Patch == o.Patch && t == o.Target &&
+				// (the text of an inline patch may have grown by comment-looking lines: the absorption findings,
+				// reported by the frame law with their own classes)
+				samePatch := q.Patch == o.Patch || (o.Patch != "" && c17AbsorbedShape(c17JsonTok(o.Patch), c17JsonTok(q.Patch)))
+				return q.Path == o.Path && samePatch && t == o.Target &&
 					!(q.Target != nil && *q.Target == (types.Selector{}))
 			}
 			if o.Kind == "add patch" {
